@@ -824,6 +824,21 @@ func replayMain(args []string, t *testing.T) int {
 			return 1
 		}
 	}
+	if rf.Tape != nil && len(res.Violations) == 0 && strings.Contains(res.Undecided, "replay diverged") && strings.Contains(res.Undecided, "tape exhausted") {
+		// the run went on past the point where the recorded one ended with its violation (the tree no
+		// longer has the defect): finish it with the simplest choices and say what it shows
+		res2, _, _ := RunReplay(spec, rf, false, t, known, scratch, false)
+		if len(res2.Violations) == 0 && res2.Undecided == "" {
+			fmt.Println("replay: the recorded violation does not occur on this tree (the run went on past the recorded choices and ended without a violation)")
+			return 0
+		}
+		for _, v := range res2.Violations {
+			if want == "" || v.Signature == want {
+				fmt.Printf("VIOLATION property=%s replay=%s\n  signature: %s\n  %s\n", rf.Property, *file, v.Signature, v.Message)
+				return 1
+			}
+		}
+	}
 	if res.Undecided != "" {
 		fmt.Println("UNDECIDED:", res.Undecided)
 		return 2
